@@ -1,7 +1,7 @@
 (* C06 -- obligations about the tables and code REGENERATED from /repo on this run (Gen_Place.v, Gen_Valid.v). *)
 From Coq Require Import List String Bool ZArith NArith.
 From RG.Load Require Import Place Validate.
-From RGW Require Import Gen_Place Gen_Valid.
+From RGW Require Import Gen_Place Gen_Valid Gen_Errs.
 Import ListNotations.
 Local Open Scope string_scope.
 
@@ -117,6 +117,46 @@ Lemma quasigo_errorf_params : gen_quasigo_errorf_interface_params =
    "compileConstantValue: source";
    "compileConstantValue: source";
    "errorUnsupportedType: e"].
+Proof. reflexivity. Qed.
+
+(* the LINE of a loader error (Gen_Errs.v, go2coq errsitescoq): the loader locates its errors at the Line of an IR node -- a bundle
+   import, a rule, a filter expression -- and irconv fills the Line of every IR node it builds except the three arguments it
+   writes by hand (the sub-pattern of Contains, the variable of Type.IdenticalTo, the function of Filter).  The cases of
+   newFilter for exactly those ops never take the line of an argument: neither `x.Line` for an x other than the filter, nor
+   an unwrap helper (which reports at the line of the node it is given). *)
+Lemma loader_line_exprs : gen_loader_line_exprs = ["bundle.Line"; "filter.Line"; "imp.Line"; "rule.Line"].
+Proof. reflexivity. Qed.
+
+Lemma ir_line_fields : gen_ir_line_fields = ["BundleImport"; "FilterExpr"; "PatternString"; "Rule"; "RuleGroup"].
+Proof. reflexivity. Qed.
+
+Lemma irconv_lineless : gen_irconv_lineless =
+  ["convertFilterExprImpl: FilterVarContainsOp: {Op: ir.FilterStringOp, Value: pat}";
+   "convertFilterExprImpl: FilterVarTypeIdenticalToOp: {Op: ir.FilterStringOp, Value: rhsVarname}";
+   "convertFilterExprImpl: FilterVarFilterOp: {Op: ir.FilterFilterFuncRefOp, Value: funcName.String()}"].
+Proof. reflexivity. Qed.
+
+Definition arg_lines_unused (cases : list (string * list string)) (op : string) : bool :=
+  match find (fun c => String.eqb (fst c) op) cases with
+  | Some (_, []) => true
+  | _ => false
+  end.
+
+Lemma lineless_args_unlocated : forallb (arg_lines_unused gen_newfilter_arg_lines) gen_irconv_lineless_ops = true.
+Proof. vm_compute. reflexivity. Qed.
+
+Lemma arg_lines_unused_spec : forall cases op, arg_lines_unused cases op = true ->
+  exists c, In c cases /\ fst c = op /\ snd c = [].
+Proof.
+  intros cases op H. unfold arg_lines_unused in H.
+  destruct (find (fun c => String.eqb (fst c) op) cases) as [[o u]|] eqn:E; [|discriminate].
+  destruct u; [|discriminate]. apply find_some in E. destruct E as [Hin Heq]. cbn [fst] in Heq.
+  exists (o, []). split; [assumption|]. split; [now apply String.eqb_eq|reflexivity].
+Qed.
+
+(* an error of irconv / of the bytecode compiler is located at a node; no such node is a variable that was declared without a
+   value (and so is nil on the paths that do not assign it) *)
+Lemma error_zero_locs : gen_error_zero_locs = [].
 Proof. reflexivity. Qed.
 
 (* newBinaryExprFilter: one recursive call, under the regenerated guard, with the two operands exchanged *)
